@@ -57,6 +57,17 @@ Fixpoint read_range (f : file) (p n : N) : list N :=
 
 Definition rd32 (f : file) (p : N) : N := unbe (read_range f p 4).
 
+(* specification-level meaning of the log: the byte at position p is what the newest write covering p
+   put there; holes read as 0.  (read_range is proved equal to it in Proofs/C14_file.v.) *)
+Definition covers (w : wr) (p : N) : bool := (wpos w <=? p) && (p <? wend w).
+Fixpoint byte_at (f : file) (p : N) : N :=
+  match f with
+  | [] => 0
+  | w :: f' => if covers w p then nth (N.to_nat (p - wpos w)) (wdat w) 0 else byte_at f' p
+  end.
+Definition bytes_at (f : file) (p : N) (n : nat) : list N :=
+  map (fun k => byte_at f (p + N.of_nat k)) (seq 0 n).
+
 (* ---------- region state ---------- *)
 Record st := {
   offs : nmap;          (* offsets[z][x], as the uint32 bit pattern, keyed by z*32+x *)
@@ -81,9 +92,19 @@ Definition create : st :=
 Fixpoint mark (u : bmap) (n : N) (c : nat) (v : bool) : bmap :=
   match c with O => u | S c' => mark (setB u n v) (n + 1) c' v end.
 
-(* Load: header tables from the file, occupancy rebuilt from the offsets *)
+(* Load: binary.Read of a [32][32]int32 = ONE 4096-byte read decoded as 1024 big-endian words *)
+Fixpoint words (l : list N) (fuel : nat) : list N :=
+  match fuel with
+  | O => []
+  | S f => match l with
+           | a :: b :: c :: d :: t => unbe [a; b; c; d] :: words t f
+           | _ => []
+           end
+  end.
+Fixpoint tab_of (ws : list N) (i : N) (m : nmap) : nmap :=
+  match ws with [] => m | w :: t => tab_of t (i + 1) (setN m i w) end.
 Definition load_tab (f : file) (base : N) : nmap :=
-  fold_left (fun m i => setN m (N.of_nat i) (rd32 f (base + 4 * N.of_nat i))) (seq 0 1024) (PositiveMap.empty N).
+  tab_of (words (read_range f base 4096) 1024) 0 (PositiveMap.empty N).
 
 Definition load_used (o : nmap) : bmap :=
   fold_left (fun u i => let w := getN o (N.of_nat i) in
